@@ -268,16 +268,35 @@ def fileWrite (cfg : PCfg) (dataRev : Bytes) (bs : Bytes) : Option Bytes :=
 /-- the part's buffer has spilled to a temporary file -/
 def spilled (cfg : PCfg) (size : Nat) : Bool := decide (size > cfg.memLimit)
 
+/-- the part is complete (`files_.push_back(file_); file_.reset(new http::file())`) with
+content `dRev` (reversed) -/
+def P.close (p : P) (dRev : Bytes) : P :=
+  { p with st := .crlfOrEof, pos := 0, cur := {}, dataRev := [],
+           filesRev := { name := p.cur.name, filename := p.cur.filename, mime := p.cur.mime,
+                         data := dRev.reverse } :: p.filesRev }
+
+/-- `if(*buffer == crlfcrlf_[position_]) position_++; else position_=0;` -/
+def crlfNext (pos : Nat) (c : UInt8) : Nat :=
+  if c == (ofNats Gen.crlfcrlf).getD pos 0 then pos + 1 else 0
+
+/-- the naive CRLFCRLF scanner of `expecting_crlfcrlf`, started at `position_ = pos`, reports
+the end of the header block exactly at the last byte of `h` (and not before) -/
+def hdrEndsAt : Nat → Bytes → Bool
+  | _, [] => false
+  | pos, c :: rest =>
+    if rest.isEmpty then crlfNext pos c == Gen.crlfcrlf.length
+    else crlfNext pos c != Gen.crlfcrlf.length && hdrEndsAt (crlfNext pos c) rest
+
+/-- `h` is a header block the parser accepts as a whole and reads as `m` -/
+def headerOK (h : Bytes) (m : Meta) : Bool := hdrEndsAt 0 h && processHeader h == some m
+
 /-- tail of one iteration of the matcher loop, after `position_` was updated -/
 def sepFinish (cfg : PCfg) (p : P) (c : UInt8) (pos : Nat) (d : Bytes) : Step :=
   if pos = 0 then
     match fileWrite cfg d [c] with
     | none => .noRoom { p with pos := 0, dataRev := d }
     | some d' => .cont { p with pos := 0, dataRev := d' }
-  else if pos = cfg.boundary.length then
-    .ready { p with st := .crlfOrEof, pos := 0, cur := {}, dataRev := [],
-                    filesRev := { name := p.cur.name, filename := p.cur.filename, mime := p.cur.mime,
-                                  data := d.reverse } :: p.filesRev }
+  else if pos = cfg.boundary.length then .ready (p.close d)
   else .cont { p with pos := pos, dataRev := d }
 
 /-- one iteration of `for(;buffer!=buffer_end;buffer++) switch(state_)` (for
@@ -298,7 +317,7 @@ def pstep (cfg : PCfg) (p : P) (c : UInt8) : Step :=
   | .lf => if c != 10 then .err else .cont { p with st := .crlfcrlf }
   | .crlfcrlf =>
     let h := c :: p.hdrRev
-    let pos := if c == (ofNats Gen.crlfcrlf).getD p.pos 0 then p.pos + 1 else 0
+    let pos := crlfNext p.pos c
     if pos = Gen.crlfcrlf.length then
       match processHeader h.reverse with
       | none => .err
